@@ -82,6 +82,7 @@ type Session struct {
 	curBlk   *ssa.BasicBlock
 	anc      map[*ssa.BasicBlock]map[*ssa.BasicBlock]bool
 	mu       sync.Mutex
+	extRefs  []string // references of slices/maps received as arguments
 	subst    [][2]string // textual substitutions applied to every query (case splits)
 	newObjs  []newObj
 	recvRef  string
